@@ -132,6 +132,11 @@ async fn run(case: Value, base: &std::path::Path) -> Value {
 		if let Some(q) = step.get("quit").filter(|q| !q.is_null()) {
 			match q["manner"].as_str().unwrap() {
 				"abort" => action.quit(),
+				// a handler that first asks for a graceful quit and then, in the same action, escalates to an abort: the last request counts
+				"graceful-then-abort" => {
+					action.quit_gracefully(evgen::mk_signal(&q["sig"]), Duration::from_millis(q["grace_ms"].as_u64().unwrap()));
+					action.quit();
+				}
 				_ => action.quit_gracefully(evgen::mk_signal(&q["sig"]), Duration::from_millis(q["grace_ms"].as_u64().unwrap())),
 			}
 			s.log.push(json!({"k": "quit", "t": mono_ms(), "step": k}));
